@@ -1203,3 +1203,50 @@ def selfinit_rule(run, model, rule='HSM-PROGRESS.selfinit'):
                                     % (o['verdict'], f.qualname, 'asks for an initial transition again' if 'asks' in o['verdict'] else 'finishes normally')),
                      node=o['node'] if not isinstance(o['node'], ast.FunctionDef) else None, obligation=True)
     return n
+
+
+def status_distinct_rule(run, model):
+    """The processor steers by comparing handler answers with the return_status constants: the constants the package actually compares against must be
+    pairwise distinct numbers (and `>= TRAN` must separate the transition statuses from the others).  The table is read by evaluating
+    ReturnStatusSource.__init__ in the finite evaluator (stores into a scratch mapping), so a loop over a tuple of names is as good as literal stores."""
+    import collections
+    from . import pureeval
+    run.rule('STATUS.distinct', 'the return_status constants the package compares against are pairwise distinct; TRAN* are the largest')
+    cls = model.classes.get('ReturnStatusSource')
+    if cls is None or '__init__' not in cls.methods:
+        raise AnalysisError('ReturnStatusSource.__init__ not found')
+    init = cls.methods['__init__']
+    run.touch(init)
+
+    class _Tab(collections.OrderedDict):
+        pass
+    tab = _Tab()
+    env = {init.params[0]: tab, '__mutable__': True}
+    try:
+        for st in init.node.body:
+            if isinstance(st, ast.Expr) and isinstance(st.value, ast.Constant):
+                continue
+            if isinstance(st, ast.Expr) and isinstance(st.value, ast.Call) and norm(st.value.func).startswith('super('):
+                continue
+            pureeval.run_body([st], env)
+    except (AnalysisError, pureeval.Raised) as ex:
+        raise AnalysisError('ReturnStatusSource.__init__ cannot be evaluated: %s' % ex)
+    used = set()
+    for f in model.all_funcs():
+        for n in ast.walk(f.node):
+            if isinstance(n, ast.Attribute) and isinstance(n.value, ast.Name) and n.value.id == 'return_status':
+                used.add(n.attr)
+    used &= set(tab)
+    run.floor('return_status constants used by the package', len(used), 5)
+    by_val = {}
+    for k in sorted(used):
+        by_val.setdefault(tab[k], []).append(k)
+    clash = {v: ks for v, ks in by_val.items() if len(ks) > 1}
+    run.inst('STATUS.distinct', init, 'constants %s are pairwise distinct' % ', '.join(sorted(used)), not clash,
+             '' if not clash else 'return_status constants share a number: %s - the processor cannot tell these answers apart' % clash, obligation=True)
+    ordered = any(isinstance(n, ast.Compare) and any(isinstance(o, (ast.Gt, ast.GtE, ast.Lt, ast.LtE)) for o in n.ops) and 'return_status.TRAN' in norm(n)
+                  for f in model.all_funcs() for n in ast.walk(f.node))
+    if 'TRAN' in tab and ordered:
+        low = [k for k in used if not k.startswith('TRAN') and isinstance(tab[k], int) and tab[k] >= tab['TRAN']]
+        run.inst('STATUS.distinct', init, 'every non-transition status is below TRAN', not low,
+                 '' if not low else 'the processor tests `answer >= TRAN` for "a transition was requested", but %s are numbered at or above TRAN' % low, obligation=True)
